@@ -99,6 +99,7 @@ def handleBindC (locl reply a b ajid bjid : String) : Option String := do
     | "nsiq" => some .otherElement
     | "space" => some .nonElement
     | "eof" => some .eof
+    | "trunc" => some .eof   -- the document ends inside the reply: the decoder's read error
     | _ => none
   let res := Bind.client locl r
   let req := match res.requested with
